@@ -190,6 +190,11 @@ func snapshot(base string) []sent {
 			out = append(out, sent{name: n, bad: "lstat"})
 			continue
 		}
+		if st.Mode()&os.ModeSymlink != 0 && n == ".tmp" {
+			if st2, err2 := os.Stat(p); err2 == nil && st2.IsDir() {
+				st = st2 // the work area may be a link to a directory elsewhere (another mount, a volume)
+			}
+		}
 		if st.IsDir() {
 			sub, _ := os.ReadDir(p)
 			e := sent{name: n, dir: true}
